@@ -84,6 +84,7 @@ class FakeCloud:
         self.jobs = {}         # api id -> remaining polls
         self.n = 0
         self.describes = 0
+        self.polls_done = 0      # status queries answered (also for an empty id list): the monitor's logical clock
         self.sizes = {}
         # environment assumption hook: a cloud job is never terminal before the submitting code has finished
         # registering it (real jobs take seconds to run; registration takes microseconds)
@@ -96,12 +97,17 @@ class FakeCloud:
             self.jobs[jid] = self.polls
             return jid
 
+    def tick(self):
+        with self.lock:
+            self.polls_done += 1
+
     def poll(self, jid):
         """True when finished."""
         if not self.ready(jid):
             return False
         with self.lock:
             self.describes += 1
+            self.polls_done += 1
             base = jid.split(":")[0]
             key = jid if jid in self.jobs else base
             left = self.jobs.get(key, 0)
@@ -143,6 +149,15 @@ class Adapter:
     def pending(self, ex):
         raise NotImplementedError
 
+    def stuck(self, ex):
+        """Description of a stage that holds a job although the only thread that empties it is not alive."""
+        arr = getattr(ex, "arrayer", None)
+        if arr is not None and sum(len(v) for v in arr.pending.values()) and not arr._monitor_thread.is_alive():
+            return "job arrayer holds %d job(s) and its thread is not alive" % sum(len(v) for v in arr.pending.values())
+        if hasattr(ex, "pending_glue_jobs") and len(ex.pending_glue_jobs) and not ex._submit_thread.is_alive():
+            return "pending_glue_jobs holds %d job(s) and the submission thread is not alive" % len(ex.pending_glue_jobs)
+        return None
+
     def reporters(self, ex):
         """Threads that call done_job / reject_job for submitted jobs (only _monitor does)."""
         t = getattr(ex, "_thread", None) or getattr(ex, "_monitor_thread", None)
@@ -171,6 +186,7 @@ class DockerA(Adapter):
             return {"jobId": fake.new_id("c")}
 
         def iter_job_status(scratch, id2job):
+            fake.tick()
             for jid in list(id2job):
                 if fake.poll(jid):
                     yield {"jobId": jid, "status": "SUCCEEDED", "logs": ""}
@@ -209,6 +225,7 @@ class AwsA(Adapter):
             return {"jobId": fake.new_id("b"), "jobName": "n"}
 
         def iter_batch_job_status(job_ids, pending_truncate=10, aws_region=None):
+            fake.tick()
             for jid in job_ids:
                 yield {"jobId": jid, "status": "SUCCEEDED" if fake.poll(jid) else "RUNNING"}
         return [mock.patch.object(u, "get_aws_user", lambda *a, **k: "alice"),
@@ -278,6 +295,7 @@ class K8sA(Adapter):
             return submit_task(client, image, namespace, scratch, job, None)
 
         def k8s_describe_jobs(client, names, namespace):
+            fake.tick()
             return [_k8s_job(n, fake.poll(n), sizes.get(n, 1)) for n in names]
         return [mock.patch.object(m, "submit_task", submit_task), mock.patch.object(m, "submit_command", submit_command),
                 mock.patch.object(m, "k8s_describe_jobs", k8s_describe_jobs),
@@ -332,7 +350,11 @@ class GcpA(Adapter):
             done = fake.poll(jid + ":" + task_name.rsplit("/", 1)[1])
             st = TaskStatus.State.SUCCEEDED if done else TaskStatus.State.RUNNING
             return types.SimpleNamespace(name=task_name, status=types.SimpleNamespace(state=st))
-        return [mock.patch.object(m.gcp_utils, "batch_submit", batch_submit), mock.patch.object(m.gcp_utils, "get_task", get_task),
+        # the GCP monitor makes no API call when it has no task to ask about: its sleep is the logical clock
+        tproxy = types.SimpleNamespace(**{k: v for k, v in time.__dict__.items() if not k.startswith("__")})
+        tproxy.sleep = lambda sec: (fake.tick(), time.sleep(sec))[1]
+        return [mock.patch.object(m, "time", tproxy),
+                mock.patch.object(m.gcp_utils, "batch_submit", batch_submit), mock.patch.object(m.gcp_utils, "get_task", get_task),
                 mock.patch.object(m.gcp_utils, "get_gcp_batch_client", lambda *a, **k: mock.MagicMock()),
                 mock.patch.object(m.gcp_utils, "get_compute_machine_type", lambda *a, **k: types.SimpleNamespace(guest_cpus=64, memory_mb=10 ** 6)),
                 mock.patch.object(m.gcp_utils, "get_gcp_compute_client", lambda *a, **k: mock.MagicMock()),
@@ -385,6 +407,7 @@ class GlueA(Adapter):
             return {"JobRunId": fake.new_id("r")}
 
         def glue_describe_jobs(ids, glue_job_name=None, aws_region=None):
+            fake.tick()
             for i in ids:
                 yield {"Id": i, "JobRunState": "SUCCEEDED" if fake.poll(i) else "RUNNING", "LogGroupName": "g"}
         return [mock.patch.object(m.aws_utils, "get_aws_client", lambda *a, **k: client),
@@ -451,10 +474,12 @@ class Env:
         return [t for t in self.adapter.reporters(self.ex) if t.is_alive()]
 
     def settle(self, max_wait=8.0):
-        """Wait until every submitted job is reported, or no reporting thread is alive (stable), or max_wait.
-        Only called after every submit() call has returned: from then on nothing starts a monitor thread."""
+        """Wait until every submitted job is reported, or no reporting thread is alive (stable), or a job sits in a stage
+        whose consumer thread is dead while the monitor completed 60 further status polls (decided on logical steps), or
+        max_wait.  Only called after every submit() call has returned: from then on nothing starts a thread."""
         t0 = time.time()
         dead_streak = 0
+        stuck_since = None
         while time.time() - t0 < max_wait:
             ids = {r[0] for r in self.reported()}
             if all(j in ids for j in self.submitted):
@@ -465,6 +490,15 @@ class Env:
                     return "threads-dead"
             else:
                 dead_streak = 0
+            why = self.adapter.stuck(self.ex)
+            if why:
+                if stuck_since is None:
+                    stuck_since = self.fake.polls_done
+                elif self.fake.polls_done - stuck_since >= 60:
+                    self.stuck_reason = why
+                    return "stage-stuck"
+            else:
+                stuck_since = None
             time.sleep(0.003)
         return "timeout"
 
@@ -505,7 +539,11 @@ def judge(ctx, env, state, wit):
         ctx.violation("%s:job-reported-twice" % env.adapter.label(), "%d job(s) reported more than once" % len(dup), wit)
         ok = False
     lost = [j for j in env.submitted if c.get(j, 0) == 0]
-    if lost and ok:
+    if lost and ok and state == "stage-stuck":
+        ctx.violation("%s:job-stuck-in-stage-without-consumer-thread" % env.adapter.name,
+                      "%d submitted job(s) never reported: %s (the monitor kept polling meanwhile)" % (len(lost), env.stuck_reason), wit)
+        ok = False
+    elif lost and ok:
         if state == "threads-dead":
             ctx.violation("%s:submission-lost-in-monitor-exit-window" % env.adapter.name,
                           "%d submitted job(s) never reported: %d still pending in the executor and no monitor thread is alive to report them"
